@@ -410,17 +410,23 @@ def rotation_from_matrix(matrix):
     R = np.asarray(matrix, dtype=np.float64)
     R33 = R[:3, :3]
     # direction: unit eigenvector of R33 corresponding to eigenvalue of 1
+    # for small angles the other two eigenvalues `exp(+-1j * angle)` also
+    # have a real part within 1e-8 of one, so compare the complex value
+    # and take the closest eigenvalue rather than the last candidate
     w, W = np.linalg.eig(R33.T)
-    i = np.where(abs(np.real(w) - 1.0) < 1e-8)[0]
-    if not len(i):
+    i = np.argmin(abs(w - 1.0))
+    if abs(w[i] - 1.0) >= 1e-8:
         raise ValueError("no unit eigenvector corresponding to eigenvalue 1")
-    direction = np.real(W[:, i[-1]]).squeeze()
-    # point: unit eigenvector of R33 corresponding to eigenvalue of 1
+    direction = np.real(W[:, i]).squeeze()
+    # point: unit eigenvector of R corresponding to eigenvalue of 1
     w, Q = np.linalg.eig(R)
-    i = np.where(abs(np.real(w) - 1.0) < 1e-8)[0]
+    i = np.where(abs(w - 1.0) < 1e-8)[0]
     if not len(i):
         raise ValueError("no unit eigenvector corresponding to eigenvalue 1")
-    point = np.real(Q[:, i[-1]]).squeeze()
+    # the axis direction `(d, 0)` is an eigenvector for eigenvalue 1 as well:
+    # take the candidate which is the most finite point
+    i = i[np.argmax(abs(Q[3, i]))]
+    point = np.real(Q[:, i]).squeeze()
     point /= point[3]
     # rotation angle depending on direction
     cosa = (np.trace(R33) - 1.0) / 2.0
